@@ -64,6 +64,10 @@ def sweep_cases(ctx: core.Ctx, rnd: random.Random, gens: list, repeats: int, *, 
         for fname, sname in (("sample.py", "python"), ("sample.bat", "bat"), ("sample.c", "c"), ("sample.html", "html")):
             for kind in ("code", "comment", "empty"):
                 add(fname, sname, kind, by_name["B3"], {"template": "nocon"}, "nothing-rendered:" + fname, must=False)
+    # a holder whose name begins with four digits, with an explicit year: the year is part of the notice all the same
+    for fname, sname in (("sample.py", "python"), ("sample.c", "c"), ("sample.png", None)):
+        add(fname, sname, "code" if sname else "binary", by_name["B1"], {}, "digit-leading-holder:" + fname)
+        cases[-1]["steps"] = [dict(st_, req=dict(st_["req"], holders=["1984 Publishing"], years=[2024])) for st_ in cases[-1]["steps"]]
     # an already-commented template whose blocks are separated by an empty line (open finding KF-C10-4)
     for kind in ("code", "empty", "comment"):
         add("sample.py", "python", kind, by_name["B1"], {"template": "pytwoblocks"}, "two-block-commented-template:sample.py", must=False)
